@@ -42,6 +42,7 @@ def run(tier):
     behs, ex = progs.drop_skipped(behs, ex)
     gen = [{"src": e["variants"][0]["src"], "ver": "7.4"} for e in ex]
     pool_in = big + gen[:60] + [{"src": s, "ver": "7.4"} for s in c14.sample_sources(check, tier, 60)]
+    pool_in += [p for p in inputs.long_token_programs() if len(p["src"]) < 40000]        # tokens longer than the usual line / buffer sizes
     # (1) gated interleavings
     confs = [(2, 3), (3, 2)] if tier == "quick" else [(2, 4), (3, 3), (2, 3), (3, 2)]
     tasks = []
@@ -91,6 +92,7 @@ def run(tier):
     # with the race detector; every file's dump, errors and printed text must be those of the library run on that file alone
     files = [p["src"] for p in pool_in if p["ver"] == "7.4"]
     files += ["<?php $a = ; $b = %d;\n" % i for i in range(20)] + ["<?php function f%d( { }\n" % i for i in range(20)] + ["<?php if (%d" % i for i in range(5)]
+    files += cli.big_sources([g["src"] for g in gen])
     rng.shuffle(files)
     wpc = core.WorkerPool(core.build_worker())
     for rnd in range(1 if tier == "quick" else 5):
